@@ -2,6 +2,7 @@
 # usage: tools/try_benign.sh <patch.diff>  - applies a property-preserving change to a scratch worktree
 # and runs every quick check against it; any VIOLATION is a candidate false alarm.
 set -u
+ROOT=$(cd "$(dirname "$0")/.." && pwd)
 PATCH=$(realpath "$1")
 export GOFLAGS=-mod=mod GOPROXY=off GOSUMDB=off GOTOOLCHAIN=local
 WT=/tmp/wt/benign_eval_$$
@@ -11,7 +12,7 @@ cd $WT
 git apply "$PATCH" 2>/dev/null || git apply -3 "$PATCH" || { echo PATCH-DOES-NOT-APPLY; exit 3; }; git reset -q 2>/dev/null
 echo "suite: $(go test -vet=off -count=1 ./... 2>&1 | tail -1)"
 git checkout -q go.sum 2>/dev/null
-cd /verif
+cd "$ROOT"
 for i in $(seq -w 1 20); do
   out=$(VERIF_REPO_DIR=$WT VERIF_SEED=${VERIF_SEED:-1} ./check C$i quick 2>&1); rc=$?
   if [ $rc -ne 0 ]; then echo "C$i rc=$rc"; echo "$out" | grep -A3 -E '^(VIOLATION|INCONCLUSIVE|BUILD)' | head -8 | cut -c1-400; fi
